@@ -726,8 +726,7 @@ Lemma offs_le k : offs k <= zlen bs.
 Proof.
   rewrite len_bs. unfold offs, off. destruct (Nat.le_gt_cases k (length P)).
   - apply off_go_le. assumption.
-  - clear Hasm. revert k H. generalize 0%nat. induction P as [|i c IH]; intros k0 k H; destruct k; simpl; try lia.
-    simpl in H. pose proof (IH (S k0) k). lia.
+  - rewrite (off_go_beyond P ws k) by lia. lia.
 Qed.
 
 Lemma view_vm_at st ip g : view (vm_at st ip g) = dview st.
@@ -751,7 +750,7 @@ Proof.
   split; [exact Hpr|].
   pose proof (decode_at bs (offs (pc st)) op ps _ (offs_nonneg _) Hs Hop) as Hd.
   assert (Hnext : offs (pc st) + 1 + Z.of_nat (length ps) = offs (S (pc st))).
-  { unfold offs, off. rewrite (off_go_S ws P 0 (pc st) i Hi). rewrite Nat.add_0_l.
+  { unfold offs, off. rewrite (off_go_S P ws (pc st) i Hi).
     rewrite <- (enc_size _ _ _ _ _ _ _ He). lia. }
   rewrite Hnext in Hd.
   unfold Model.step, step_with, vm_of. cbn [vm_at s_fr f_ip s_sc sc_prog s_gas s_base s_limit].
